@@ -171,6 +171,19 @@ def eval_cost(spec_name, kind, dims):
     return fn(spec)
 
 
+def generic_one_group(spec_name, kind, dims):
+    """the generic (unconstrained) cost function of the layer type evaluated on ONE group, i.e. on an ordinary 1 -> 1 channel convolution with
+    groups = 1. The function is looked up with a description that cannot be depthwise (2 -> 3 channels), then applied to the one-group description
+    (a 1 -> 1 convolution is formally depthwise, so a lookup with it would return the depthwise function itself)."""
+    cs = cost_specs()[spec_name]
+    probe = dict(dims)
+    probe['cin'], probe['cout'], probe['groups'] = torch.tensor(2.0), torch.tensor(3.0), 1
+    fn = cs[(ltype(kind), mk_spec(kind, probe))]
+    one = dict(dims)
+    one['cin'], one['cout'], one['groups'] = torch.tensor(1.0), torch.tensor(1.0), 1
+    return fn(mk_spec(kind, one))
+
+
 def concrete_eval(spec_name, kind, cfg, vals):
     """plain torch evaluation used for replay / concolic validation. vals: cin, cout, out0, out1, theta (numbers)"""
     d = dict(cfg)
@@ -214,9 +227,22 @@ def replay(rec):
             except (AssertionError, KeyError, ValueError, NotImplementedError) as e_:
                 msgs.append(f'{type(e_).__name__}: {e_}'[:160])
         return bool(msgs), '; '.join(msgs) or 'both precision pairs are accepted'
+    if obs.startswith('grouped_mono'):
+        a_ = rec['a']
+        g_ = float(a_['cin'])
+        dw = concrete_eval(rec['spec'], rec['kind'] + '_dw', cfg, a_)
+        c2 = dict(cfg)
+        c2['groups'] = torch.tensor(g_)
+        a2 = dict(a_)
+        a2[rec['grow']] = 2 * g_
+        gr = concrete_eval(rec['spec'], rec['kind'], c2, a2)
+        return gr < dw - 1e-6 * max(1.0, abs(dw)), f'depthwise={dw} grouped (x2 {rec["grow"]})={gr}'
     if obs.startswith('dw_vs_generic'):
         a = concrete_eval(rec['spec'], rec['kind'], cfg, rec['a'])
-        g = concrete_eval(rec['spec'], rec['kind'].replace('_dw', ''), cfg, dict(rec['a'], cin=1, cout=1))
+        dgc = dict(cfg)
+        dgc['k'] = tuple(cfg['k'])
+        dgc['out'] = (int(rec['a']['out0']), int(rec['a']['out1']))
+        g = float(generic_one_group(rec['spec'], rec['kind'].replace('_dw', ''), dgc))
         want = g * float(rec['a']['cout'])
         return abs(a - want) > 1e-6 * max(1, abs(want)), f'dw={a} generic-per-group x groups={want}'
     a = concrete_eval(rec['spec'], rec['kind'], cfg, rec['a'])
@@ -292,6 +318,7 @@ def run_instance(p):
         _run_helpers(res, self_t)
     elif p['what'] == 'dw':
         _run_dw(res, tier, self_t)
+        _run_grouped(res, tier, self_t)
     elif p['what'] == 'reject':
         _run_reject(res, self_t)
     elif p['what'] == 'bits':
@@ -559,8 +586,7 @@ def _run_dw(res, tier, selftest):
                         cdw = _val(eval_cost(spec_name, kind, d))
                         one = dict(v, cin=z3.IntVal(1), cout=z3.IntVal(1))
                         dg, _ = _dims(ex, kind.replace('_dw', ''), cfg, shared=one)
-                        dg['groups'] = 2   # a non-depthwise description of one group (never matches the dw constraint)
-                        cg = _val(eval_cost(spec_name, kind.replace('_dw', ''), dg))
+                        cg = _val(generic_one_group(spec_name, kind.replace('_dw', ''), dg))
                     return v, cdw, cg
                 ex = Explorer(timeout_ms=Q)
                 for pc, (v, cdw, cg) in ex.explore(fn):
@@ -578,6 +604,43 @@ def _run_dw(res, tier, selftest):
                                'key': f'{spec_name}|{kind}|dw_vs_generic|bias={cfg.get("bias")}'}
                         _report(res, rec, f'{spec_name}:{kind}: depthwise formula != generic per group at {jsonable(a)}', selftest)
                 res.absorb(ex)
+
+
+def _run_grouped(res, tier, selftest):
+    """size / operation counts do not decrease when a depthwise layer (g -> g channels, g groups) gets more output or input channels with the same
+    groups (g -> 2g or 2g -> g channels, g groups: a grouped, no longer depthwise convolution)"""
+    for spec_name in ('params', 'params_no_bias', 'params_bit', 'ops', 'ops_no_bias', 'ops_bit'):
+        for kind in ('conv1d', 'conv2d'):
+            for cfg in configs(spec_name, kind, tier)[:2]:
+                for grow in ('cout', 'cin'):
+                    def fn(ex):
+                        with SymMode():
+                            g = z3.Int('g')
+                            ex.assume(g >= 2, g <= 64)
+                            o0, o1 = z3.Int('out0'), z3.Int('out1')
+                            ex.assume(o0 >= 1, o0 <= 33, o1 >= 1, o1 <= 33)
+                            v = {'cin': g, 'cout': g, 'out0': o0, 'out1': o1}
+                            ddw, _ = _dims(ex, kind + '_dw', cfg, shared=v)
+                            cdw = _val(eval_cost(spec_name, kind + '_dw', ddw))
+                            v2 = dict(v)
+                            v2[grow] = 2 * g
+                            dgr, _ = _dims(ex, kind, cfg, shared=v2)
+                            dgr['groups'] = _t(g)
+                            cgr = _val(eval_cost(spec_name, kind, dgr))
+                        return v, cdw, cgr
+                    ex = Explorer(timeout_ms=Q)
+                    for pc, (v, cdw, cgr) in ex.explore(fn):
+                        r, m = ex.check(st.e_lt(cgr, cdw))
+                        if r == 'unknown':
+                            res.inconclusive.append(f'grouped {spec_name}:{kind}:{grow}: unknown')
+                            continue
+                        res.oblige(r == 'unsat')
+                        if r == 'sat':
+                            a = _model_vals(m, v)
+                            rec = {'spec': spec_name, 'kind': kind, 'cfg': _cfg_json(cfg), 'a': a, 'grow': grow, 'observable': 'grouped_mono',
+                                   'key': f'{spec_name}|{kind}|mono:depthwise->grouped:{grow}'}
+                            _report(res, rec, f'{spec_name}:{kind}: cost decreases when a depthwise layer with {jsonable(a)} channels/groups doubles its {grow} (same groups)', selftest)
+                    res.absorb(ex)
 
 
 # ---------------------------------------------------------------------------------------------------------------------
